@@ -8,7 +8,7 @@ open Ty
 
 /-- the round trip of one Go value through the bridge type of its Go type -/
 def RT (norm : String → String) (g : GoVal) (T : GoTy) (ty : Ty) : Prop :=
-  ∃ v : Value, toCtyG norm true g ty = .ok v ∧ fromCtyP [] v.ty v.v T = .ok g ∧
+  ∃ v : Value, toCtyG norm true g ty = .ok v ∧ (∀ S, fromCtyP S [] v.ty v.v T = .ok g) ∧
     (hasCval T = false → v.ty = ty) ∧ «matches» ty v.ty = true
 
 theorem isEmpty_false_of_ne {α} {l : List α} (h : l ≠ []) : l.isEmpty = false := by
@@ -30,6 +30,7 @@ theorem rt (norm : String → String) : ∀ (g : GoVal) (T : GoTy) (ty : Ty), ha
     rename_i w s
     simp only [impliedG] at hb; cases hb
     refine ⟨⟨.number, .n (Num.ofInt v)⟩, by simp [toCtyG], ?_, fun _ => rfl, matches_refl _⟩
+    intro S
     unfold fromCtyP
     simp [GoTy.base, GoTy.isCval, GoTy.depth, int_roundtrip v w s 64 hT, mapRes, wrapPtr]
   | .flt x, T, ty, hT, hs, hb => by
@@ -37,6 +38,7 @@ theorem rt (norm : String → String) : ∀ (g : GoVal) (T : GoTy) (ty : Ty), ha
     rename_i is32
     simp only [impliedG] at hb; cases hb
     refine ⟨⟨.number, .n (fixPrec x)⟩, by simp [toCtyG], ?_, fun _ => rfl, matches_refl _⟩
+    intro S
     unfold fromCtyP
     simp [GoTy.base, GoTy.isCval, GoTy.depth, flt_roundtrip x is32 hT, mapRes, wrapPtr]
   | .nan, T, ty, hT, hs, hb => by cases T <;> simp [hasTy] at hT
@@ -46,30 +48,35 @@ theorem rt (norm : String → String) : ∀ (g : GoVal) (T : GoTy) (ty : Ty), ha
     simp only [impliedG] at hb; cases hb
     simp only [rtSide, beq_iff_eq] at hs
     refine ⟨⟨.string, .s s⟩, by simp [toCtyG, hs], ?_, fun _ => rfl, matches_refl _⟩
+    intro S
     unfold fromCtyP
     simp [GoTy.base, GoTy.isCval, GoTy.depth, wrapPtr]
   | .bool b, T, ty, hT, hs, hb => by
     cases T <;> simp [hasTy] at hT
     simp only [impliedG] at hb; cases hb
     refine ⟨⟨.bool, .b b⟩, by simp [toCtyG], ?_, fun _ => rfl, matches_refl _⟩
+    intro S
     unfold fromCtyP
     simp [GoTy.base, GoTy.isCval, GoTy.depth, wrapPtr]
   | .bigInt v, T, ty, hT, hs, hb => by
     cases T <;> simp [hasTy] at hT
     simp only [impliedG] at hb; cases hb
     refine ⟨⟨.number, .n (Num.ofInt v (max 64 (Num.bitlen v.natAbs)))⟩, by simp [toCtyG], ?_, fun _ => rfl, matches_refl _⟩
+    intro S
     unfold fromCtyP
     simp [GoTy.base, GoTy.isCval, GoTy.depth, bigInt_roundtrip, mapRes, wrapPtr]
   | .bigFloat x, T, ty, hT, hs, hb => by
     cases T <;> simp [hasTy] at hT
     simp only [impliedG] at hb; cases hb
     refine ⟨⟨.number, .n x⟩, by simp [toCtyG], ?_, fun _ => rfl, matches_refl _⟩
+    intro S
     unfold fromCtyP
     simp [GoTy.base, GoTy.isCval, GoTy.depth, fromNum, mapRes, wrapPtr]
   | .cval cv, T, ty, hT, hs, hb => by
     cases T <;> simp [hasTy] at hT
     simp only [impliedG] at hb; cases hb
     refine ⟨cv, by simp [toCtyG, passthrough, isDynTy], ?_, fun h => by simp [hasCval] at h, rfl⟩
+    intro S
     unfold fromCtyP
     simp [GoTy.base, GoTy.isCval, GoTy.depth, wrapPtr, pushMarks]
   | .nilSlice, T, ty, hT, hs, hb => by
@@ -77,6 +84,7 @@ theorem rt (norm : String → String) : ∀ (g : GoVal) (T : GoTy) (ty : Ty), ha
     rename_i E
     obtain ⟨ety, hbe, rfl⟩ := impliedG_slice_inv hb
     refine ⟨Value.null (.list ety), by simp [toCtyG], ?_, fun _ => rfl, matches_refl _⟩
+    intro S
     unfold fromCtyP
     simp [Value.null, GoTy.base, GoTy.isCval, GoTy.depth, wrapPtr, nullViaPtr]
   | .nilMap, T, ty, hT, hs, hb => by
@@ -84,6 +92,7 @@ theorem rt (norm : String → String) : ∀ (g : GoVal) (T : GoTy) (ty : Ty), ha
     rename_i E
     obtain ⟨ety, hbe, rfl⟩ := impliedG_map_inv hb
     refine ⟨Value.null (.map ety), by simp [toCtyG], ?_, fun _ => rfl, matches_refl _⟩
+    intro S
     unfold fromCtyP
     simp [Value.null, GoTy.base, GoTy.isCval, GoTy.depth, wrapPtr, nullViaPtr]
   | .slice vs, T, ty, hT, hs, hb => by
@@ -95,6 +104,7 @@ theorem rt (norm : String → String) : ∀ (g : GoVal) (T : GoTy) (ty : Ty), ha
     by_cases hvs : vs = []
     · subst hvs
       refine ⟨⟨.list ety, .seq []⟩, by simp [toCtyG], ?_, fun _ => rfl, matches_refl _⟩
+      intro S
       unfold fromCtyP
       simp [GoTy.base, GoTy.isCval, GoTy.depth, wrapPtr, fromCtyL, seqAll, mapRes]
     · have hwf := impliedG_wf norm true E ety hbe
@@ -107,9 +117,10 @@ theorem rt (norm : String → String) : ∀ (g : GoVal) (T : GoTy) (ty : Ty), ha
         | cons _ _ => simp at hl
       refine ⟨⟨.list ety, .seq (payloads ws)⟩, ?_, ?_, fun _ => rfl, matches_refl _⟩
       · simp only [toCtyG, isEmpty_false_of_ne hvs, Bool.false_eq_true, if_false, h5, seqAll_map_ok, listVal,
-          isEmpty_false_of_ne hwne, elemTypeOf_dyn ety hnd heq ws hwne h7]
-      · unfold fromCtyP
-        simp [GoTy.base, GoTy.isCval, GoTy.depth, wrapPtr, h6, seqAll_map_ok, mapRes]
+          isEmpty_false_of_ne hwne, canListVal, elemTypeOf_dyn ety hnd heq ws hwne h7, Bool.not_true, Bool.false_eq_true]
+      · intro S
+        unfold fromCtyP
+        simp [GoTy.base, GoTy.isCval, GoTy.depth, wrapPtr, h6 S, seqAll_map_ok, mapRes]
   | .arr vs, T, ty, hT, hs, hb => by
     cases T <;> simp only [hasTy, Bool.false_eq_true] at hT
     rename_i n E
@@ -123,6 +134,7 @@ theorem rt (norm : String → String) : ∀ (g : GoVal) (T : GoTy) (ty : Ty), ha
       have hn : n = 0 := by simpa using hT.1.symm
       subst hn
       refine ⟨⟨.list ety, .seq []⟩, by simp [toCtyG], ?_, fun _ => rfl, matches_refl _⟩
+      intro S
       unfold fromCtyP
       simp [GoTy.base, GoTy.isCval, GoTy.depth, wrapPtr, fromCtyL, seqAll, mapRes]
     · have hwf := impliedG_wf norm true E ety hbe
@@ -135,9 +147,10 @@ theorem rt (norm : String → String) : ∀ (g : GoVal) (T : GoTy) (ty : Ty), ha
         | cons _ _ => simp at hl
       refine ⟨⟨.list ety, .seq (payloads ws)⟩, ?_, ?_, fun _ => rfl, matches_refl _⟩
       · simp only [toCtyG, isEmpty_false_of_ne hvs, Bool.false_eq_true, if_false, h5, seqAll_map_ok, listVal,
-          isEmpty_false_of_ne hwne, elemTypeOf_dyn ety hnd heq ws hwne h7]
-      · unfold fromCtyP
-        simp [GoTy.base, GoTy.isCval, GoTy.depth, wrapPtr, h6, seqAll_map_ok, mapRes, hpl]
+          isEmpty_false_of_ne hwne, canListVal, elemTypeOf_dyn ety hnd heq ws hwne h7, Bool.not_true, Bool.false_eq_true]
+      · intro S
+        unfold fromCtyP
+        simp [GoTy.base, GoTy.isCval, GoTy.depth, wrapPtr, h6 S, seqAll_map_ok, mapRes, hpl]
   | .map ks vs, T, ty, hT, hs, hb => by
     cases T <;> simp only [hasTy, Bool.false_eq_true] at hT
     rename_i E
@@ -150,6 +163,7 @@ theorem rt (norm : String → String) : ∀ (g : GoVal) (T : GoTy) (ty : Ty), ha
       have hks : ks = [] := by cases ks <;> simp_all
       subst hks
       refine ⟨⟨.map ety, .smap [] []⟩, by simp [toCtyG], ?_, fun _ => rfl, matches_refl _⟩
+      intro S
       unfold fromCtyP
       simp [GoTy.base, GoTy.isCval, GoTy.depth, wrapPtr, fromCtyL, seqAll, mapRes]
     · have hwf := impliedG_wf norm true E ety hbe
@@ -162,9 +176,10 @@ theorem rt (norm : String → String) : ∀ (g : GoVal) (T : GoTy) (ty : Ty), ha
         | cons _ _ => simp at hl
       refine ⟨⟨.map ety, .smap ks (payloads ws)⟩, ?_, ?_, fun _ => rfl, matches_refl _⟩
       · simp only [toCtyG, isEmpty_false_of_ne hvs, Bool.false_eq_true, if_false, h5, combAll_map_ok, mapVal,
-          isEmpty_false_of_ne hwne, elemTypeOf_dyn ety hnd heq ws hwne h7, hs.1.1, bne_self_eq_false]
-      · unfold fromCtyP
-        simp [GoTy.base, GoTy.isCval, GoTy.depth, wrapPtr, h6, seqAll_map_ok, mapRes]
+          isEmpty_false_of_ne hwne, canListVal, elemTypeOf_dyn ety hnd heq ws hwne h7, hs.1.1, bne_self_eq_false, Bool.not_true, Bool.false_eq_true]
+      · intro S
+        unfold fromCtyP
+        simp [GoTy.base, GoTy.isCval, GoTy.depth, wrapPtr, h6 S, seqAll_map_ok, mapRes]
   | .nilPtr, T, ty, hT, hs, hb => by
     cases T <;> simp only [hasTy, Bool.false_eq_true] at hT
     rename_i E
@@ -179,7 +194,8 @@ theorem rt (norm : String → String) : ∀ (g : GoVal) (T : GoTy) (ty : Ty), ha
       all_goals first
         | (simp only [impliedG] at hb; cases hb; rfl)
         | (simp only [impliedG] at hb; split at hb <;> cases hb; rfl)
-        | (obtain ⟨ts, _, _, rfl⟩ := impliedG_struct_inv hb; rfl)
+        | (obtain ⟨_, _, _, rfl⟩ := impliedG_struct_obj hb; rfl)
+    intro S
     unfold fromCtyP
     simp [Value.null, GoTy.base, GoTy.depth, hbase, hdepth, hcv, hnv, wrapPtr]
   | .ptr v, T, ty, hT, hs, hb => by
@@ -188,7 +204,7 @@ theorem rt (norm : String → String) : ∀ (g : GoVal) (T : GoTy) (ty : Ty), ha
     simp only [rtSide] at hs
     simp only [impliedG] at hb
     obtain ⟨w, h1, h2, h3, h4⟩ := rt norm v E ty hT hs hb
-    refine ⟨w, ?_, fromCtyP_ptr w.v [] w.ty E v h2, fun hc => h3 (by simpa [hasCval] using hc), h4⟩
+    refine ⟨w, ?_, fun S => fromCtyP_ptr w.v S [] w.ty E v (h2 S), fun hc => h3 (by simpa [hasCval] using hc), h4⟩
     simp only [toCtyG]
     rw [toCtyG_pass norm v E ty hT hb]
     exact h1
@@ -199,7 +215,7 @@ theorem rt (norm : String → String) : ∀ (g : GoVal) (T : GoTy) (ty : Ty), ha
     obtain ⟨⟨rfl, hlen⟩, hTZ⟩ := hT
     simp only [rtSide, Bool.and_eq_true, beq_iff_eq] at hs
     obtain ⟨⟨hdist, hnorm⟩, hsZ⟩ := hs
-    obtain ⟨ts, hfields, hne, rfl⟩ := impliedG_struct_inv hb
+    obtain ⟨ts, hfields, hne, rfl⟩ := impliedG_struct_inv hdist hnorm hb
     obtain ⟨fs, e1, e2, e3, e4, hz, hfs⟩ := rtZ norm vs tags tys ts hlen hTZ hsZ hfields
     subst e1 e2 e3 e4
     have hfne : tg fs ≠ [] := by
@@ -212,16 +228,17 @@ theorem rt (norm : String → String) : ∀ (g : GoVal) (T : GoTy) (ty : Ty), ha
 theorem rtL (norm : String → String) : ∀ (vs : List GoVal) (E : GoTy) (ety : Ty), hasTyL vs E = true →
     rtSideL norm vs E = true → impliedG norm true E = .ok ety → hasCval E = false →
     ∃ ws : List Value, ws.length = vs.length ∧ toCtyL norm vs ety = ws.map Res.ok ∧
-      fromCtyL ety (payloads ws) E = vs.map Res.ok ∧ (∀ w ∈ ws, w.ty = ety)
-  | [], _, _, _, _, _, _ => ⟨[], rfl, rfl, rfl, by simp⟩
+      (∀ S, fromCtyL S ety (payloads ws) E = vs.map Res.ok) ∧ (∀ w ∈ ws, w.ty = ety)
+  | [], _, _, _, _, _, _ => ⟨[], rfl, rfl, fun _ => rfl, by simp⟩
   | v :: vs, E, ety, hT, hs, hb, hc => by
     simp only [hasTyL, rtSideL, Bool.and_eq_true] at hT hs
     obtain ⟨w, h1, h2, h3, _⟩ := rt norm v E ety hT.1 hs.1 hb
     obtain ⟨ws, h4, h5, h6, h7⟩ := rtL norm vs E ety hT.2 hs.2 hb hc
     have hw := h3 hc
     refine ⟨w :: ws, by simp [h4], by simp [toCtyL, h1, h5], ?_, ?_⟩
-    · simp only [payloads, fromCtyL, h6, List.map_cons]
-      rw [← hw, h2]
+    · intro S
+      simp only [payloads, fromCtyL, h6 S, List.map_cons]
+      rw [← hw, h2 S]
     · intro x hx
       rcases List.mem_cons.mp hx with rfl | hx
       · exact hw
@@ -231,7 +248,7 @@ theorem rtZ (norm : String → String) : ∀ (vs : List GoVal) (tags : List Stri
     impliedFields norm true tags tys = ts.map Res.ok →
     ∃ fs : List Fld, fs.map (·.tag) = tags ∧ fs.map (·.v) = vs ∧ fs.map (·.T) = tys ∧ (tg fs).map (·.t) = ts ∧
       (∀ f ∈ fs, f.tag = "" → f.v = zeroVal f.T) ∧
-      ∀ f ∈ fs, f.tag ≠ "" → toCtyG norm true f.v f.t = .ok f.w ∧ fromCtyP [] f.w.ty f.w.v f.T = .ok f.v ∧
+      ∀ f ∈ fs, f.tag ≠ "" → toCtyG norm true f.v f.t = .ok f.w ∧ (∀ S, fromCtyP S [] f.w.ty f.w.v f.T = .ok f.v) ∧
         (hasCval f.T = false → f.w.ty = f.t) ∧ «matches» f.t f.w.ty = true
   | [], tags, tys, ts, hl, hT, _, hf => by
     have : tags = [] := by cases tags <;> simp_all
@@ -301,11 +318,13 @@ theorem impliedG_noPanic (norm : String → String) (ext : Bool) : ∀ (T : GoTy
     · cases h : impliedG norm ext e <;> simp_all [Res.isPanic]
     · rfl
   | .struct tags tys => by
-    have := combAll_isPanic _ (impliedFields_noPanic norm ext tags tys)
+    have := combAll_isPanic _ (impliedFields_noPanic norm ext (effTags tags) tys)
     simp only [impliedG]
+    unfold impliedStruct
+    simp only []
     split; · rfl
     split; · rfl
-    cases h : combAll (impliedFields norm ext tags tys) <;> simp_all [Res.isPanic]
+    cases h : combAll (impliedFields norm ext (effTags tags) tys) <;> simp_all [Res.isPanic]
 theorem impliedFields_noPanic (norm : String → String) (ext : Bool) : ∀ (tags : List String) (tys : List GoTy),
     anyPanic (impliedFields norm ext tags tys) = false
   | [], _ => by simp [impliedFields, anyPanic]
